@@ -55,6 +55,13 @@ type c12desc struct {
 	Scripts [][]*c12node `json:"scripts"` // one program per thread (direct) / per sink (sinks)
 	Events  []int        `json:"events"`  // sinks: the sink each event triggers
 	Reps    int          `json:"reps,omitempty"`
+	Spawn   int          `json:"spawn,omitempty"` // direct: workers a processor spawns while the threads fetch their ids
+	// mode "ids": Goroutines threads fetch Rounds ids each at the same instant, up to Attempts times
+	Goroutines int `json:"goroutines,omitempty"`
+	Rounds     int `json:"rounds,omitempty"`
+	Attempts   int `json:"attempts,omitempty"`
+
+	forceTids []uint64 // (not part of the description) ids found duplicated by the "ids" mode
 }
 
 var c12exits = []string{"normal", "error", "return", "break", "continue"}
@@ -288,6 +295,7 @@ type c12ev struct {
 type c12start struct {
 	Tid    uint64
 	Script int
+	Goid   string // the goroutine (= pool worker) that ran the sink
 }
 
 type c12rec struct {
@@ -391,8 +399,9 @@ func (r *c12rec) scope() parser.Scope {
 		return nil, nil
 	}})
 	vs.SetValue("start", &c12func{func(tid uint64, args []interface{}) (interface{}, error) {
+		goid := c12goid()
 		r.mu.Lock()
-		r.starts = append(r.starts, c12start{tid, c12argInt(args)})
+		r.starts = append(r.starts, c12start{tid, c12argInt(args), goid})
 		r.mu.Unlock()
 		return nil, nil
 	}})
@@ -408,7 +417,8 @@ type c12result struct {
 	threads   []string // Coq terms (tid, ops)
 	srcs      []string
 	errs      []string
-	skip      string // not comparable (reason)
+	skip      string   // not comparable (reason)
+	ids       []uint64 // every thread id handed out during the run
 }
 
 // A run counts as not completed when the occupancy trace has not grown for c12stall (no
@@ -467,17 +477,29 @@ func c12runDirect(d c12desc) c12result {
 			res.panicMsg = "generated program does not parse: " + err.Error() + "\n" + src
 			return res
 		}
-		tid := erp.NewThreadID()
-		ths = append(ths, th{ast, tid})
-		var ops []string
-		c12flatten(s, &ops)
-		res.threads = append(res.threads, fmt.Sprintf("(%d, %s)", tid, CoqList(ops)))
+		ths = append(ths, th{ast, 0})
 	}
-	startCh := make(chan struct{})
+	tids := make([]uint64, len(ths))
+	var start int32
 	var wg sync.WaitGroup
 	var pmu sync.Mutex
+	tp := erp.Processor.ThreadPool()
+	tp.TooManyThreshold = 1 << 30
+	if d.Spawn > 0 {
+		// a processor starts its workers (ids from the same counter) at the same instant
+		wg.Add(1)
+		go func() {
+			defer wg.Done()
+			c12spin(&start)
+			for w := 1; w <= d.Spawn; w++ {
+				tp.SetWorkerCount(w, false)
+			}
+		}()
+		defer tp.JoinAll()
+	}
 	for i := range ths {
 		wg.Add(1)
+		i := i
 		t := ths[i]
 		tvs := vs.NewChild(fmt.Sprintf("t%d", i))
 		expectErr := len(d.Scripts[i]) > 0 && d.Scripts[i][len(d.Scripts[i])-1].Prop
@@ -490,20 +512,83 @@ func c12runDirect(d c12desc) c12result {
 					pmu.Unlock()
 				}
 			}()
-			<-startCh
-			_, err := t.ast.Runtime.Eval(tvs, make(map[string]interface{}), t.tid)
+			c12spin(&start)
+			// every thread fetches ITS OWN id, all at the same instant
+			tid := erp.NewThreadID()
+			if i < len(d.forceTids) {
+				tid = d.forceTids[i]
+			}
+			tids[i] = tid
+			_, err := t.ast.Runtime.Eval(tvs, make(map[string]interface{}), tid)
 			if (err != nil) != expectErr {
 				pmu.Lock()
-				res.errs = append(res.errs, fmt.Sprintf("thread %d: unexpected result: %v", t.tid, err))
+				res.errs = append(res.errs, fmt.Sprintf("thread %d: unexpected result: %v", tid, err))
 				pmu.Unlock()
 			}
 		}()
 	}
 	done := make(chan struct{})
 	go func() { wg.Wait(); close(done) }()
-	close(startCh)
+	time.Sleep(50 * time.Microsecond) // let the goroutines reach the barrier
+	atomic.StoreInt32(&start, 1)
 	res.completed = c12await(rec, done)
+	if !res.completed {
+		for _, t := range tids { // the ids fetched so far (the threads are stuck)
+			if t != 0 {
+				res.ids = append(res.ids, t)
+			}
+		}
+		return res
+	}
+	for i, s := range d.Scripts {
+		var ops []string
+		c12flatten(s, &ops)
+		res.threads = append(res.threads, fmt.Sprintf("(%d, %s)", tids[i], CoqList(ops)))
+	}
+	res.ids = append(res.ids, tids...)
+	if d.Spawn > 0 {
+		res.ids = append(res.ids, c12workerIDs(tp)...)
+	}
 	return res
+}
+
+// c12spin: start barrier (busy wait so that all threads leave it at the same instant)
+func c12spin(start *int32) {
+	for n := 0; atomic.LoadInt32(start) == 0; n++ {
+		if n%2000 == 1999 {
+			runtime.Gosched()
+		}
+	}
+}
+
+func c12workerIDs(tp interface{ State() map[string]interface{} }) []uint64 {
+	ids, _ := tp.State()["TotalWorkerThreads"].([]uint64)
+	return ids
+}
+
+// c12badIDs: ids handed out more than once, or zero
+func c12badIDs(ids []uint64) (dups []uint64, zero bool) {
+	seen := map[uint64]bool{}
+	for _, id := range ids {
+		if id == 0 {
+			zero = true
+		}
+		if seen[id] {
+			dups = append(dups, id)
+		}
+		seen[id] = true
+	}
+	return
+}
+
+func c12goid() string {
+	var buf [64]byte
+	n := runtime.Stack(buf[:], false)
+	f := strings.Fields(string(buf[:n]))
+	if len(f) >= 2 {
+		return f[1]
+	}
+	return ""
 }
 
 func c12runSinks(d c12desc) c12result {
@@ -529,7 +614,9 @@ func c12runSinks(d c12desc) c12result {
 		err = ast.Runtime.Validate()
 	}
 	if err == nil {
-		_, err = ast.Runtime.Eval(vs, make(map[string]interface{}), erp.NewThreadID())
+		mainTid := erp.NewThreadID()
+		res.ids = append(res.ids, mainTid)
+		_, err = ast.Runtime.Eval(vs, make(map[string]interface{}), mainTid)
 	}
 	if err != nil {
 		res.panicMsg = "generated program does not load: " + err.Error() + "\n" + src
@@ -606,6 +693,18 @@ func c12runSinks(d c12desc) c12result {
 			res.skip = "processor stalled with every started program finished"
 		}
 	}
+	// one id per worker goroutine that ran a sink
+	byGo := map[string]uint64{}
+	var goOrder []string
+	for _, st := range rec.starts {
+		if _, ok := byGo[st.Goid]; !ok {
+			goOrder = append(goOrder, st.Goid)
+		}
+		byGo[st.Goid] = st.Tid
+	}
+	for _, g := range goOrder {
+		res.ids = append(res.ids, byGo[g])
+	}
 	// the program of a worker = the programs of the events it processed, in order
 	per := map[uint64][]string{}
 	var order []uint64
@@ -629,6 +728,104 @@ func c12runSinks(d c12desc) c12result {
 	return res
 }
 
+// c12ids: the guard of the theorems on the implementation.  Goroutines threads fetch Rounds
+// ids each from erp.NewThreadID() at the same instant while the processor's pool spawns
+// workers (ids from the same counter); every id handed out must be new and non-zero.
+// When a duplicate shows, two threads carrying it run a mutex program (the exclusion
+// violation that follows becomes visible as a case for the Coq side).
+func c12ids(c *Ctx, d c12desc) bool {
+	erp := interpreter.NewECALRuntimeProvider("c12", nil, nil)
+	defer erp.Cron.Stop()
+	tp := erp.Processor.ThreadPool()
+	tp.TooManyThreshold = 1 << 30
+	defer tp.JoinAll()
+	seen := map[uint64]bool{}
+	workers := map[uint64]bool{}
+	var dups []uint64
+	zero := false
+	total := 0
+	for a := 0; a < d.Attempts && len(dups) == 0 && !zero; a++ {
+		ids := make([][]uint64, d.Goroutines)
+		var start int32
+		var wg sync.WaitGroup
+		for g := 0; g < d.Goroutines; g++ {
+			ids[g] = make([]uint64, 0, d.Rounds)
+			wg.Add(1)
+			go func(g int) {
+				defer wg.Done()
+				c12spin(&start)
+				for i := 0; i < d.Rounds; i++ {
+					ids[g] = append(ids[g], erp.NewThreadID())
+				}
+			}(g)
+		}
+		wg.Add(1)
+		go func() {
+			defer wg.Done()
+			c12spin(&start)
+			for w := 4*a + 1; w <= 4*a+4; w++ {
+				tp.SetWorkerCount(w, false)
+			}
+		}()
+		time.Sleep(50 * time.Microsecond)
+		atomic.StoreInt32(&start, 1)
+		wg.Wait()
+		for _, l := range ids {
+			for _, id := range l {
+				total++
+				if id == 0 {
+					zero = true
+				}
+				if seen[id] {
+					dups = append(dups, id)
+				}
+				seen[id] = true
+			}
+		}
+		for _, id := range c12workerIDs(tp) {
+			if workers[id] {
+				continue
+			}
+			workers[id] = true
+			total++
+			if id == 0 {
+				zero = true
+			}
+			if seen[id] {
+				dups = append(dups, id)
+			}
+			seen[id] = true
+		}
+	}
+	c.Dist["mode_ids"]++
+	c.Dist["thread_ids_requested"] += total
+	if len(dups) == 0 && !zero {
+		c.Count(c12key(d), true, d)
+		return true
+	}
+	what := fmt.Sprintf("%d of %d thread ids were handed out more than once", len(dups), total)
+	if len(dups) > 0 {
+		what += fmt.Sprintf(" (e.g. %d)", dups[0])
+	}
+	if zero {
+		what += "; the id 0 was handed out"
+	}
+	c.Violate("duplicate-thread-id", what+": NewThreadID does not give every thread its own non-zero id (guard of the C12 theorems)", d)
+	if len(dups) > 0 {
+		// two threads that were handed the same id enter blocks of one name
+		inc := func() *c12node { return &c12node{Inc: true} }
+		prog := func() []*c12node {
+			return []*c12node{c12blk(1, "normal", true, inc(), inc(), inc()), c12blk(1, "error", false, inc(), inc()), c12blk(1, "normal", true, inc(), inc(), inc())}
+		}
+		d2 := c12desc{Mode: "direct", Scripts: [][]*c12node{prog(), prog()}, forceTids: []uint64{dups[0], dups[0]}}
+		res := c12runDirect(d2)
+		if res.panicMsg == "" && res.completed {
+			c12emit(c, d, res, true)
+		}
+	}
+	return false
+}
+
 func c12key(d c12desc) string {
 	d.Reps = 0
 	b, _ := json.Marshal(d)
@@ -638,6 +835,9 @@ func c12key(d c12desc) string {
 // c12one runs one description once and emits the case; returns false on a direct violation.
 func c12one(c *Ctx, d c12desc) bool {
 	var res c12result
+	if d.Mode == "ids" {
+		return c12ids(c, d)
+	}
 	if d.Mode == "sinks" {
 		res = c12runSinks(d)
 	} else {
@@ -674,6 +874,11 @@ func c12one(c *Ctx, d c12desc) bool {
 		c.Count(c12key(d), shared, d)
 		return false
 	}
+	if dups, _ := c12badIDs(res.ids); !res.completed && len(dups) > 0 {
+		c.Violate("duplicate-thread-id", fmt.Sprintf("thread ids handed out during the run are not pairwise distinct: %v", res.ids), d)
+		c.Count(c12key(d), shared, d)
+		return false
+	}
 	if !res.completed {
 		c.Violate("nontermination", fmt.Sprintf("not all threads completed: no progress for %v (a mutex was not released, or a deadlock)", c12stall), d)
 		c.Count(c12key(d), shared, d)
@@ -684,6 +889,14 @@ func c12one(c *Ctx, d c12desc) bool {
 			c.Notes = append(c.Notes, e)
 		}
 	}
+	if dups, zero := c12badIDs(res.ids); len(dups) > 0 || zero {
+		c.Violate("duplicate-thread-id", fmt.Sprintf("thread ids handed out during the run are not pairwise distinct and non-zero: %v", res.ids), d)
+	}
+	c12emit(c, d, res, shared)
+	return true
+}
+
+func c12emit(c *Ctx, d c12desc, res c12result, shared bool) {
 	rec := res.rec
 	rec.mu.Lock()
 	var tr []string
@@ -701,8 +914,8 @@ func c12one(c *Ctx, d c12desc) bool {
 	if len(tr) > 0 {
 		c.Dist["trace_events"] += len(tr)
 	}
+	c.Dist["thread_ids_checked"] += len(res.ids)
 	c.AddCase(id, term, d, c12key(d), shared)
-	return true
 }
 
 // ---------------------------------------------------------------- the sweep
@@ -758,7 +971,7 @@ func c12corpus() []c12desc {
 }
 
 func runC12(c *Ctx) error {
-	c.Rule = "ECAL programs of nested `mutex n1..n3 {}` blocks (names nested in one global order, depth <= 3, every block left by normal end / raise / return / break / continue, caught directly or after travelling through the enclosing blocks, leave() in a finally or before the abrupt statement, counter increments only inside n1) on 2..16 threads sharing one runtime provider: direct evaluation in goroutines with ids from NewThreadID, and sinks on a processor with 2..16 workers; fixed corpus, then an exhaustive universe of one-block and two-block programs run pairwise, then seeded random programs; each description run several times (schedules come from the Go runtime); non-trivial = at least two threads use a common name; distinct by description"
+	c.Rule = "ECAL programs of nested `mutex n1..n3 {}` blocks (names nested in one global order, depth <= 3, every block left by normal end / raise / return / break / continue, caught directly or after travelling through the enclosing blocks, leave() in a finally or before the abrupt statement, counter increments only inside n1) on 2..16 threads sharing one runtime provider: direct evaluation in goroutines that each fetch their own id from NewThreadID right after a common start barrier (in a third of the runs while a processor spawns workers), and sinks on a processor with 2..16 workers; all ids handed out in a run must be pairwise distinct and non-zero, checked first by 16 goroutines fetching 2000 ids each at the same instant (repeated) while workers are spawned; fixed corpus, then an exhaustive universe of one-block and two-block programs run pairwise, then seeded random programs; each description run several times (schedules come from the Go runtime); non-trivial = at least two threads use a common name; distinct by description"
 	c.BeginCases("From Ecal Require Import Model.Mutex Run.RunC12.\nOpen Scope N_scope.", "ecase", 150)
 	c.caseFiles = []string{} // "case_files": [] rather than null when every run is a direct violation
 
@@ -784,7 +997,13 @@ func runC12(c *Ctx) error {
 			}
 		}
 	}
-	for _, d := range c12corpus() {
+	// the guard of the theorems first: every thread gets its own non-zero id, also when many
+	// threads and a starting processor ask at the same instant
+	c12one(c, c12desc{Mode: "ids", Goroutines: 16, Rounds: 2000, Attempts: c.Pick(20, 40)})
+	for i, d := range c12corpus() {
+		if d.Mode == "direct" && i%2 == 0 {
+			d.Spawn = 4
+		}
 		run(d)
 	}
 	// exhaustive small universe
@@ -828,6 +1047,9 @@ func runC12(c *Ctx) error {
 		nn := 1 + c.Rng.Intn(3)
 		depth := 1 + c.Rng.Intn(3)
 		d := c12desc{Mode: "direct"}
+		if c.Rng.Intn(3) == 0 {
+			d.Spawn = 1 + c.Rng.Intn(8)
+		}
 		for t := 0; t < k; t++ {
 			d.Scripts = append(d.Scripts, c12genScript(c, nn, depth))
 		}
